@@ -295,6 +295,26 @@ def constructor_rule(ctx, sym, rule, attrs):
                       "falsy, so the feedback keeps its class's negative valence and scores the other way round")
 
 
+class _Wrapped:
+    """Stand-in for FeedbackFieldWrapper: renders as <field>, honours width/alignment specs, and hands item and
+    attribute look-ups on to the wrapped value (what str.format needs of a field)."""
+
+    def __init__(self, field, value):
+        self.field, self.value = field, value
+        self.line = 'LINE-OF-' + str(field)
+
+    def __format__(self, spec):
+        if spec == '' and isinstance(self.value, int) and not isinstance(self.value, bool) and self.field == 'width':
+            return str(self.value)      # (a field used inside another field's format specification)
+        return format('<%s>' % self.field, spec)
+
+    def __getitem__(self, key):
+        return '<%s[%r]=%s>' % (self.field, key, self.value[key])
+
+    def __str__(self):
+        return '<%s>' % self.field
+
+
 def message_rule(ctx, sym, rule):
     """_get_message / _get_else_message executed abstractly (explicit text, template, neither; templates that render
     to text, to blanks, to nothing): explicit text first, else the template formatted with
@@ -308,32 +328,43 @@ def message_rule(ctx, sym, rule):
     for name, attr, tattr, dflt in specs:
         fn = mod.func('Feedback.' + name)
         ctx.analysed_function(mod, fn)
-        for text, tmpl in itertools.product((None, 'TEXT', ''), (None, 'T {x}', '{x}', '{blank}', '  {blank}\n')):
+        templates = (None, 'T {x}', '{x}', '{blank}', '  {blank}\n', '{pair[0]} and {x}', '{text:>{width}}|',
+                     '{loc.line} {table[key]}')
+        for text, tmpl in itertools.product((None, 'TEXT', ''), templates):
             wraps = []
             fmt = Obj('formatter')
-            fields = {'x': 1, 'blank': ''}
+            fields = {'x': 1, 'blank': '', 'pair': ('first', 'second'), 'text': 't', 'width': 5,
+                      'loc': _Wrapped('loc-value', None), 'table': {'key': 'cell'}, 'unused': object()}
+
+            def wrapper(field, value, formatter=None, *a, **k):
+                wraps.append((field, value, formatter))
+                return _Wrapped(field, value)
+            # wrap_fields itself (pedal.core.formatting) is interpreted; the wrapper class it builds is a stand-in that
+            # renders as <field> and passes item and attribute look-ups on to the value
             me = symexec.self_obj(mod, 'Feedback', report=Obj('report', format=fmt), fields=fields,
                                   DEFAULT_FEEDBACK_MESSAGE='DEFAULT', DEFAULT_ELSE_MESSAGE=None,
                                   DEFAULT_JUSTIFICATION_MESSAGE='DEFAULTJ')
             me.attrs[attr] = text
             me.attrs[tattr] = tmpl
-            fd = symexec.new_fd(sym, mod, calls={
-                'wrap_fields': lambda f, fl: (wraps.append((f, fl)) or {'x': 'WRAPPED-X', 'blank': ''})})
+            fd = symexec.new_fd(sym, mod, calls={'FeedbackFieldWrapper': wrapper})
             got, raised = symexec.run(fd, fn, [], bound_self=me, what='Feedback.' + name)
             if text is not None:
                 want = text
             elif tmpl is not None:
-                want = tmpl.format(x='WRAPPED-X', blank='')
+                want = tmpl.format(**{k: _Wrapped(k, v) for k, v in fields.items()})
             else:
                 want = me.attrs[dflt]
+            used = {w[0] for w in wraps}
             ok = raised is None and got == want and (text is not None or tmpl is None or (
-                len(wraps) >= 1 and all(w[0] is fmt and w[1] is fields for w in wraps)))
+                all(w[2] is fmt for w in wraps) and all(w[1] is fields[w[0]] for w in wraps if w[0] in fields)))
             ctx.check(ok, rule, '%s[%s=%r,%s=%r]' % (name, attr, text, tattr, tmpl), mod, fn,
-                      "%s; expected %r (explicit text first, else the template rendered with fields wrapped by the "
+                      "%s; expected %r (explicit text first, else the template rendered with every field wrapped by the "
                       "report's formatter - whatever it renders to -, else the default)" % (
-                          'raises %s' % raised.kind if raised is not None else 'returns %r' % (got,), want),
+                          'raises %s (%s)' % (raised.kind, raised.detail) if raised is not None else 'returns %r' % (got,),
+                          want),
                       "feedback(%s=%r, %s=%r): a triggered feedback whose message is None is treated by the resolver "
-                      "as if it had not fired" % (attr, text, tattr, tmpl), construct=name)
+                      "as if it had not fired; a template that reaches a field by index or inside a format "
+                      "specification fails to render" % (attr, text, tattr, tmpl), construct=name)
 
 
 def r5_message(ctx, sym):
@@ -353,7 +384,7 @@ def r5_message(ctx, sym):
     for just, tmpl, met in itertools.product((None, 'J', ('Jmet', 'Junmet')), (None, 'T {x}', ('Tmet {x}', 'Tunmet')),
                                              (True, False)):
         fd = FD(resolver=resolver)
-        fd.calls['wrap_fields'] = lambda fmt, fields: {'x': ('wrapped', fields)}
+        fd.calls['wrap_fields'] = lambda fmt, fields, *a, **k: {'x': ('wrapped', fields)}
         fd.calls['isinstance'] = lambda o, t: isinstance(o, t)
         fd.methods['format'] = lambda recv, *a, **k: ('formatted', recv)
         me = Obj('feedback', report=Obj('report', format=Obj('formatter')), fields={'x': 1},
